@@ -166,6 +166,20 @@ let handle_mj = function
       | Some out -> id ^ " " ^ hex_of_bytes out)
   | _ -> failwith "bad MJ line"
 
+(* TV <id> <hex>: the verdict of a TOML output on one MessagePack document *)
+let handle_tv = function
+  | [ id; data ] ->
+      id ^ " " ^ (match msgpack_toml_verdict (bytes_of_hex data) with
+                  | TVNone -> "none"
+                  | TVAccept -> "ok"
+                  | TVRefuse TRNull -> "null"
+                  | TVRefuse TRBigInt -> "bigint"
+                  | TVRefuse TRBytes -> "bytes"
+                  | TVRefuse TRKey -> "key"
+                  | TVRefuse TRDupKey -> "dupkey"
+                  | TVRefuse TRNotTable -> "nottable")
+  | _ -> failwith "bad TV line"
+
 let handle_md = function
   | [ id; data ] -> id ^ " " ^ if msgpack_matches utf8_valid (bytes_of_hex data) then "match" else "nomatch"
   | _ -> failwith "bad MD line"
@@ -543,6 +557,7 @@ let () =
           | "JT" :: rest -> handle_jt rest
           | "JW" :: rest -> handle_jw rest
           | "MJ" :: rest -> handle_mj rest
+          | "TV" :: rest -> handle_tv rest
           | k :: _ -> failwith ("unknown case kind " ^ k)
           | [] -> ""
         in
